@@ -96,30 +96,20 @@ namespace smt
             // we need to create a new variable..
             const lit eq_lit = lit(sat->new_var()); // the equality literal..
 
-            [[maybe_unused]] bool nc;
+            // (a clause can be refused only if the network is already inconsistent at root-level: the equality is then meaningless..)
             // the values outside the intersection are pruned if the equality control variable becomes true..
             for (const auto &[val, l] : assigns[left])
                 if (!intersection.count(val))
-                {
-                    nc = sat->new_clause({!eq_lit, !l});
-                    assert(nc);
-                }
+                    if (!sat->new_clause({!eq_lit, !l}))
+                        return FALSE_lit;
             for (const auto &[val, l] : assigns[right])
                 if (!intersection.count(val))
-                {
-                    nc = sat->new_clause({!eq_lit, !l});
-                    assert(nc);
-                }
+                    if (!sat->new_clause({!eq_lit, !l}))
+                        return FALSE_lit;
             // the values inside the intersection are made pairwise equal if the equality variable becomes true..
             for (const auto &v : intersection)
-            {
-                nc = sat->new_clause({!eq_lit, !assigns[left].at(v), assigns[right].at(v)});
-                assert(nc);
-                nc = sat->new_clause({!eq_lit, assigns[left].at(v), !assigns[right].at(v)});
-                assert(nc);
-                nc = sat->new_clause({eq_lit, !assigns[left].at(v), !assigns[right].at(v)});
-                assert(nc);
-            }
+                if (!sat->new_clause({!eq_lit, !assigns[left].at(v), assigns[right].at(v)}) || !sat->new_clause({!eq_lit, assigns[left].at(v), !assigns[right].at(v)}) || !sat->new_clause({eq_lit, !assigns[left].at(v), !assigns[right].at(v)}))
+                    return FALSE_lit;
 
             exprs.emplace(s_expr, eq_lit);
             return eq_lit;
